@@ -1,8 +1,8 @@
 package props
 
 import (
-	"bytes"
 	"bufio"
+	"bytes"
 	"encoding/json"
 	"fmt"
 	"net"
@@ -12,6 +12,7 @@ import (
 	"strings"
 	"sync"
 	"sync/atomic"
+	"syscall"
 	"time"
 
 	"golang.org/x/net/http2"
@@ -58,8 +59,8 @@ func C07(r *core.Run) {
 	lanes := []c07Lane{
 		{name: "plain", cfg: []string{"--proxy-timeout=3s"}},
 		{name: "h2", cfg: []string{"--proxy-timeout=3s", "--force-http2=true"}, h2: true},
-		{name: "full", cfg: []string{"--proxy-timeout=3s", "--shim-path=shim", "--shim-websockets=true", "--session-cookie-name=SID", "--disable-ssl-for-test=true", "--inject-banner=<b>banner</b>"}, shim: true, sess: true},
-		{name: "full+injection", cfg: []string{"--proxy-timeout=3s", "--shim-path=shim", "--shim-websockets=true", "--session-cookie-name=SID", "--disable-ssl-for-test=true", "--inject-banner=<b>banner</b>", "--enable-websockets-injection=true", "--rewrite-websocket-host=true"}, shim: true, sess: true},
+		{name: "full", cfg: []string{"--proxy-timeout=3s", "--shim-path=shim", "--shim-websockets=true", "--session-cookie-name=SID", "--disable-ssl-for-test=true", "--session-cookie-cache-limit=1000000", "--inject-banner=<b>banner</b>"}, shim: true, sess: true},
+		{name: "full+injection", cfg: []string{"--proxy-timeout=3s", "--shim-path=shim", "--shim-websockets=true", "--session-cookie-name=SID", "--disable-ssl-for-test=true", "--session-cookie-cache-limit=1000000", "--inject-banner=<b>banner</b>", "--enable-websockets-injection=true", "--rewrite-websocket-host=true"}, shim: true, sess: true},
 	}
 	reps := r.Pick(1, 4)
 	var wg sync.WaitGroup
@@ -75,7 +76,86 @@ func C07(r *core.Run) {
 	r.Finish(r.Pick(40, 200))
 }
 
+// c07BlackHole: a backend address that neither accepts nor refuses (a listening socket whose accept queue is full, so
+// further SYNs are dropped): the agent's connect runs into the transport's 30 s dial time-out, and the client must still
+// get a 502 rather than nothing or something else.
+func c07BlackHole(r *core.Run, agentBin string, md *fakes.Metadata, ln c07Lane, li int) {
+	fd, err := syscall.Socket(syscall.AF_INET, syscall.SOCK_STREAM, 0)
+	if err != nil {
+		r.Inconclusive("black-hole scenario: socket: " + err.Error())
+		return
+	}
+	defer syscall.Close(fd)
+	if err := syscall.Bind(fd, &syscall.SockaddrInet4{Addr: [4]byte{127, 0, 0, 1}}); err != nil {
+		r.Inconclusive("black-hole scenario: bind: " + err.Error())
+		return
+	}
+	if err := syscall.Listen(fd, 0); err != nil {
+		r.Inconclusive("black-hole scenario: listen: " + err.Error())
+		return
+	}
+	sa, _ := syscall.Getsockname(fd)
+	port := sa.(*syscall.SockaddrInet4).Port
+	addr := fmt.Sprintf("127.0.0.1:%d", port)
+	// fill the accept queue (never accepted), then verify that a further connect really hangs
+	var fillers []net.Conn
+	defer func() {
+		for _, c := range fillers {
+			c.Close()
+		}
+	}()
+	for k := 0; k < 3; k++ {
+		if c, err := net.DialTimeout("tcp", addr, 300*time.Millisecond); err == nil {
+			fillers = append(fillers, c)
+		}
+	}
+	if c, err := net.DialTimeout("tcp", addr, 1500*time.Millisecond); err == nil {
+		c.Close()
+		r.Inconclusive("black-hole scenario: the kernel still accepts connections on the full queue; scenario skipped")
+		return
+	}
+	px, err := fakes.NewProxy()
+	if err != nil {
+		r.Broken(err.Error())
+		return
+	}
+	defer px.Close()
+	px.ListWait = 30 * time.Millisecond
+	var cfg []string
+	for _, a := range ln.cfg {
+		if !strings.HasPrefix(a, "--proxy-timeout") {
+			cfg = append(cfg, a)
+		}
+	}
+	agent, err := startAgent(r, agentBin, fmt.Sprintf("agent7bh-%s", ln.name), md, px.URL(), addr, "b7bh", cfg...)
+	if err != nil {
+		r.Broken(err.Error())
+		return
+	}
+	defer agent.Kill()
+	for d := time.Now().Add(60 * time.Second); time.Now().Before(d) && px.Lists() == 0 && agent.Alive(); {
+		time.Sleep(10 * time.Millisecond)
+	}
+	id := fmt.Sprintf("blackhole-%d", li)
+	px.Enqueue(id, tokRequest("GET", id, 10, 0, "c07.example", nil, nil), "")
+	up, ok := px.Wait(id, 50*time.Second)
+	r.Case(fmt.Sprintf("%s|backend|black-holed", ln.name))
+	switch {
+	case !agent.Alive():
+		r.Violate("C07:agent-terminated:"+ln.name+":backend/black-holed", "the agent exited after a request to a black-holed backend: "+core.Trunc(tail(agent.Log(), 800), 800), nil, nil)
+	case !ok || up == nil || up.Resp == nil:
+		r.Violate("C07:unreachable-backend:no-response:black-holed", fmt.Sprintf("config %s: a request to a backend that neither accepts nor refuses connections produced no uploaded response within 50 s (the dial time-out is 30 s)", ln.name), nil, nil)
+	case up.Resp.Status != 502:
+		r.Violate("C07:unreachable-backend:not-502:black-holed", fmt.Sprintf("config %s: a request to a backend that neither accepts nor refuses connections was answered %d, not 502", ln.name, up.Resp.Status), nil, nil)
+	}
+}
+
 func c07Lane_(r *core.Run, agentBin string, md *fakes.Metadata, li int, ln c07Lane, reps int) {
+	if ln.name == "plain" {
+		bhDone := make(chan struct{})
+		go func() { defer close(bhDone); c07BlackHole(r, agentBin, md, ln, li) }()
+		defer func() { <-bhDone }()
+	}
 	backend, err := newTokBackend()
 	if err != nil {
 		r.Broken(err.Error())
@@ -86,6 +166,19 @@ func c07Lane_(r *core.Run, agentBin string, md *fakes.Metadata, li int, ln c07La
 		if strings.HasPrefix(req.Target, "/ws/echo/") && rawhttp.HasToken(req.Get("Upgrade"), "websocket") {
 			wsEcho(req, conn, br)
 			return true, false
+		}
+		if req.Target == "/sess/login" || strings.HasPrefix(req.Target, "/app/whoami") {
+			// a backend session whose only cookie is scoped to /app; whoami reports the cookies the backend was sent
+			var w rawhttp.Builder
+			body := "cookies=" + strings.Join(req.Get("Cookie"), "; ")
+			w.Line("HTTP/1.1 200 OK")
+			if req.Target == "/sess/login" {
+				w.Field("Set-Cookie", "appsid=logged-in; Path=/app")
+			}
+			w.Field("Content-Length", fmt.Sprint(len(body))).End()
+			w.WriteString(body)
+			_, err := conn.Write(w.Bytes())
+			return true, err == nil
 		}
 		if !strings.HasPrefix(req.Target, "/fault/") {
 			return false, false
@@ -473,6 +566,38 @@ func c07Lane_(r *core.Run, agentBin string, md *fakes.Metadata, li int, ln c07La
 		close(stop)
 		return
 	}
+	// a user's session (agent session cookie + a backend cookie scoped to /app) that the faulty requests below belong to
+	userSID := ""
+	whoami := func(when string) {
+		if userSID == "" {
+			return
+		}
+		var w rawhttp.Builder
+		id := fmt.Sprintf("whoami-%d-%s", li, when)
+		w.Line("GET /app/whoami?"+when+" HTTP/1.1").Field("Host", "c07.example").Field("Cookie", userSID).End()
+		px.Enqueue(id, w.Bytes(), "")
+		up, ok := px.Wait(id, 20*time.Second)
+		if !ok || up.Resp == nil {
+			return // (a lost response is the healthy lanes' business)
+		}
+		if up.Resp.Status == 200 && !strings.Contains(string(up.Resp.Body), "appsid=logged-in") {
+			r.Violate("C07:session-lost-after-neighbour-fault:"+ln.name, fmt.Sprintf("config %s: after fault [%s] on another path of the same session the backend no longer receives the session's /app cookie (it saw %q)", ln.name, when, core.Trunc(string(up.Resp.Body), 120)), nil, nil)
+			userSID = ""
+		}
+	}
+	if ln.sess {
+		var w rawhttp.Builder
+		w.Line("GET /sess/login HTTP/1.1").Field("Host", "c07.example").End()
+		px.Enqueue(fmt.Sprintf("login-%d", li), w.Bytes(), "")
+		if up, ok := px.Wait(fmt.Sprintf("login-%d", li), 20*time.Second); ok && up.Resp != nil {
+			for _, sc := range up.Resp.Get("Set-Cookie") {
+				if strings.HasPrefix(sc, "SID=") {
+					userSID = strings.SplitN(sc, ";", 2)[0]
+				}
+			}
+		}
+		whoami("login")
+	}
 	// inject the catalogue
 	inj := 0
 	statusSeen := map[string]map[int]int{}
@@ -537,9 +662,14 @@ func c07Lane_(r *core.Run, agentBin string, md *fakes.Metadata, li int, ln c07La
 					_ = port
 				} else {
 					var w rawhttp.Builder
-					w.Line(fmt.Sprintf("GET /fault/%s/%d HTTP/1.1", f.Kind, inj)).Field("Host", "c07.example").Field("Accept-Encoding", "identity").End()
+					w.Line(fmt.Sprintf("GET /fault/%s/%d HTTP/1.1", f.Kind, inj)).Field("Host", "c07.example").Field("Accept-Encoding", "identity")
+					if userSID != "" {
+						w.Field("Cookie", userSID)
+					}
+					w.End()
 					px.Enqueue(id, w.Bytes(), "")
 					up, got = px.Wait(id, 3*time.Second)
+					whoami("backend/" + f.Kind)
 				}
 			case "shim":
 				var body, path string
